@@ -100,6 +100,10 @@ def gen_cases(tier, seed):
                rng.choice(DESTS), rng.choice(pac_names), content=rng.choice([0, 1, 2, "zeros", "ones", "ramp"]),
                md_only=rng.random() < 0.04)
         )
+        if rng.random() < 0.3:
+            # a transaction sequence number which needs every byte of the provider's width
+            sw = cases[-1]["cfg"]["seqw"]
+            cases[-1]["cfg"]["seq_start"] = rng.choice([(1 << (sw - 8)) + 3, (1 << sw) - 2]) if sw > 8 else 200
     # consecutive put requests on one handler pair (every request must run to completion, whatever ran before)
     nseq = 400 if tier == "quick" else 6000
     for _ in range(nseq):
